@@ -203,6 +203,78 @@ theorem spec_union_tag {m : Nat} {top : V} {init : T} {P Q : Set (Pt V T)} {a b 
     · exact Or.inl (side Set.subset_union_left ha hq (by rw [hmin]; exact min_le_left _ _))
     · exact Or.inr (side Set.subset_union_right hb hq (by rw [hmin]; exact min_le_right _ _))
 
+/-! ### histories: a sketcher whose single step refines `Spec` refines it along every operation list -/
+section History
+variable {S G ε : Type}
+
+/-- run a list of items through a fallible step function -/
+def runList (step : S → G → Except ε S) : S → List G → Except ε S
+  | s, [] => .ok s
+  | s, g :: gs => match step s g with | .ok s' => runList step s' gs | .error e => .error e
+
+/-- union of the items' point sets -/
+def listPts (pts : G → Set (Pt V T)) (gs : List G) : Set (Pt V T) := {p | ∃ g ∈ gs, p ∈ pts g}
+
+theorem listPts_congr (pts : G → Set (Pt V T)) {gs gs' : List G} (h : ∀ g, g ∈ gs ↔ g ∈ gs') :
+    listPts pts gs = listPts pts gs' := by
+  ext p; simp only [listPts, Set.mem_setOf_eq]
+  constructor
+  · rintro ⟨g, hg, hp⟩; exact ⟨g, (h g).mp hg, hp⟩
+  · rintro ⟨g, hg, hp⟩; exact ⟨g, (h g).mpr hg, hp⟩
+
+theorem runList_spec {m : Nat} {top : V} {init : T} (step : S → G → Except ε S) (WF : S → Prop) (view : S → St V T)
+    (pts : G → Set (Pt V T))
+    (hstep : ∀ s g s' P, WF s → Spec m top init P (view s) → step s g = .ok s' →
+      WF s' ∧ Spec m top init (P ∪ pts g) (view s')) :
+    ∀ (gs : List G) (s s' : S) (P : Set (Pt V T)), WF s → Spec m top init P (view s) →
+      runList step s gs = .ok s' → WF s' ∧ Spec m top init (P ∪ listPts pts gs) (view s') := by
+  intro gs
+  induction gs with
+  | nil =>
+    intro s s' P hwf hs e
+    simp only [runList] at e; injection e with e; subst e
+    refine ⟨hwf, spec_congr hs ?_⟩
+    ext p; simp [listPts]
+  | cons g gs ih =>
+    intro s s' P hwf hs e
+    simp only [runList] at e
+    cases h1 : step s g with
+    | error er => rw [h1] at e; simp at e
+    | ok s1 =>
+      rw [h1] at e
+      obtain ⟨wf1, sp1⟩ := hstep s g s1 P hwf hs h1
+      obtain ⟨wf', sp'⟩ := ih s1 s' _ wf1 sp1 e
+      refine ⟨wf', spec_congr sp' ?_⟩
+      ext p; simp only [listPts, Set.mem_union, Set.mem_setOf_eq, List.mem_cons]
+      constructor
+      · rintro ((hp | hp) | ⟨x, hx, hp⟩)
+        · exact Or.inl hp
+        · exact Or.inr ⟨g, Or.inl rfl, hp⟩
+        · exact Or.inr ⟨x, Or.inr hx, hp⟩
+      · rintro (hp | ⟨x, hx | hx, hp⟩)
+        · exact Or.inl (Or.inl hp)
+        · subst hx; exact Or.inl (Or.inr hp)
+        · exact Or.inr ⟨x, hx, hp⟩
+
+/-- position-wise, the registers of a union of families are the minimum of the members' registers -/
+theorem spec_family_min {m : Nat} {top : V} {init : T} {ι : Type} (Pf : ι → Set (Pt V T)) (sf : ι → St V T)
+    (u : St V T) (I : Set ι) (hne : I.Nonempty)
+    (hu : Spec m top init {p | ∃ i ∈ I, p ∈ Pf i} u) (hs : ∀ i ∈ I, Spec m top init (Pf i) (sf i)) :
+    ∀ k, k < m → (∀ i ∈ I, u.reg k ≤ (sf i).reg k) ∧ ∃ i ∈ I, u.reg k = (sf i).reg k := by
+  intro k hk
+  have hle : ∀ i ∈ I, u.reg k ≤ (sf i).reg k := by
+    intro i hi
+    rcases (hs i hi).2 k hk with h0 | ⟨_, pt, hpt, h1, h2, _⟩
+    · rw [h0.1]; exact spec_reg_le_top hu k hk
+    · rw [← h2, ← h1]; exact hu.1 pt ⟨i, hi, hpt⟩
+  refine ⟨hle, ?_⟩
+  rcases hu.2 k hk with g0 | ⟨_, qt, ⟨i, hi, hq⟩, g1, g2, _⟩
+  · obtain ⟨i, hi⟩ := hne
+    exact ⟨i, hi, le_antisymm (hle i hi) (by rw [g0.1]; exact spec_reg_le_top (hs i hi) k hk)⟩
+  · refine ⟨i, hi, le_antisymm (hle i hi) ?_⟩
+    rw [← g2, ← g1]; exact (hs i hi).1 qt hq
+end History
+
 /-! ### early-exit loop over one item's monotone stream (ProbMinHash3 shape) -/
 section Loop
 variable (qmax : St V T → V) (pt : Nat → Pt V T) (L : Nat → V)
